@@ -88,56 +88,6 @@ theorem memo_stale_counterexample :
 
 /-! ## the process: many environments, one lexer cache, one parser cache -/
 
-/-- a process without caches: every parse uses a lexer compiled from the environment's own delimiters
-and a parser that refers to the environment itself -/
-def specStep (envs : List EnvCfg) : Op → List EnvCfg × Option Used
-  | .newEnv cfg => (envs ++ [cfg], none)
-  | .setMode id m => (modify envs id fun c => { c with mode := m }, none)
-  | .setTags id t => (modify envs id fun c => { c with tags := t }, none)
-  | .setFilters id t => (modify envs id fun c => { c with filters := t }, none)
-  | .parse id => match envs[id]? with
-    | none => (envs, none)
-    | some cfg => (envs, some ⟨cfg.delims, id, some cfg⟩)
-
-def specRun (envs : List EnvCfg) : List Op → List (Option Used)
-  | [] => []
-  | op :: ops => (specStep envs op).2 :: specRun (specStep envs op).1 ops
-
-def ProcInv (p : Proc) : Prop := Inv (fun d => d) p.lexers ∧ Inv (fun k : ParserKey => k.id) p.parsers
-
-theorem step_spec (p : Proc) (op : Op) (hp : ProcInv p) :
-    (step p op).2 = (specStep p.envs op).2 ∧ (step p op).1.envs = (specStep p.envs op).1 ∧ ProcInv (step p op).1 := by
-  cases op with
-  | newEnv cfg =>
-    have hpr := call_spec parserKeyEq (fun k : ParserKey => k.id)
-      (by intro a b h; simp [parserKeyEq] at h; exact h.1) p.parsers ⟨p.envs.length, (cfg.delims, cfg.mode)⟩ hp.2
-    exact ⟨rfl, rfl, hp.1, hpr.2.1⟩
-  | setMode id m => exact ⟨rfl, rfl, hp⟩
-  | setTags id t => exact ⟨rfl, rfl, hp⟩
-  | setFilters id t => exact ⟨rfl, rfl, hp⟩
-  | parse id =>
-    cases hcfg : p.envs[id]? with
-    | none =>
-      have e1 : step p (.parse id) = (p, none) := by simp [step, hcfg]
-      have e2 : specStep p.envs (.parse id) = (p.envs, none) := by simp [specStep, hcfg]
-      rw [e1, e2]; exact ⟨rfl, rfl, hp⟩
-    | some cfg =>
-      have hl := call_spec lexerKeyEq (fun d => d) (by intro a b h; simpa [lexerKeyEq] using h) p.lexers cfg.delims hp.1
-      have hpr := call_spec parserKeyEq (fun k : ParserKey => k.id)
-        (by intro a b h; simp [parserKeyEq] at h; exact h.1) p.parsers ⟨id, (cfg.delims, cfg.mode)⟩ hp.2
-      have e1 : step p (.parse id) =
-          ({ p with parsers := (call parserKeyEq (fun k => k.id) p.parsers ⟨id, (cfg.delims, cfg.mode)⟩).1,
-                    lexers := (call lexerKeyEq (fun d => d) p.lexers cfg.delims).1 },
-           some ⟨(call lexerKeyEq (fun d => d) p.lexers cfg.delims).2,
-                 (call parserKeyEq (fun k => k.id) p.parsers ⟨id, (cfg.delims, cfg.mode)⟩).2,
-                 p.envs[(call parserKeyEq (fun k => k.id) p.parsers ⟨id, (cfg.delims, cfg.mode)⟩).2]?⟩) := by
-        simp [step, hcfg]
-      have e2 : specStep p.envs (.parse id) = (p.envs, some ⟨cfg.delims, id, some cfg⟩) := by simp [specStep, hcfg]
-      rw [e1, e2]
-      refine ⟨?_, rfl, hl.2.1, hpr.2.1⟩
-      simp only
-      rw [hl.1, hpr.1, hcfg]
-
 /-- **Sentence 2.** For every history of environment creations, mutations of an environment's
 tolerance / tags / filters, and parses, in any interleaving and with any number of live configurations
 (so with evictions from both 128-entry caches), every parse is computed from the delimiters and the
